@@ -6,7 +6,8 @@ package main
 // succeeds) it returns nil and the output, read back, denotes the same values incl. typed nulls, annotations, field
 // names and nesting; for a document the Reader rejects it returns an error (an error-report entry is appended).
 // The event writer is driven directly: no call sequence panics, and depth / IsInStruct follow the container stack.
-// Outside: the built binary (arguments, files, stdin, exit status), the event encoding (ion.Encoder, reflection).
+// Outside: the built binary (arguments, files, stdin, exit status), the serialisation of events and error-report entries
+// (ion.Encoder, reflection; the events themselves are checked in h_c20ev.go).
 
 import (
 	"github.com/amzn/ion-go/ion"
